@@ -664,6 +664,9 @@ func runC16(c *run.Ctx) {
 				}
 			}
 			for j := 0; j <= len(in); j++ {
+				if len(in) > 600 && !(j < 4 || j > len(in)-4 || (j%4096 < 2 || j%4096 > 4094) || j == len(in)/2) {
+					continue // long inputs: reader failures around the ends, the middle and every 4096-byte refill boundary
+				}
 				sig, what := judgeReadFault(b.P, in, j)
 				c.Eval()
 				c.Transitions++
@@ -683,6 +686,12 @@ func runC16(c *run.Ctx) {
 			if c.WantSample() && m >= 3 {
 				c.Sample(map[string]interface{}{"policy": b.S.Name, "input": string(in), "writes_in_fault_free_run": m, "faults": "each write index x 3 kinds x 2 writer kinds; each read offset"})
 			}
+		}
+	}
+	for _, n := range []int{4097, 9000} {
+		long := []byte("<b>" + strings.Repeat("t &amp; u ", n/10) + "</b><i>z</i>")
+		if c.Own([]byte("c16long"), []byte(fmt.Sprint(n))) {
+			evalInput(long)
 		}
 	}
 	all := fragAll()
